@@ -254,7 +254,7 @@ def run_once(machine, plan, prop, keep_trace=False, timeout=None):
     if getattr(machine, "needs_refserver", False):
         from . import refserver
 
-        refserver.client()  # created in this process, before the fork, so the run child inherits its pipes
+        refserver.client(plan["seed"])  # created in this process, before the fork, so the run child inherits its pipes
     return isolated(execute_plan, (machine, plan, prop, keep_trace), timeout=timeout)
 
 
